@@ -21,6 +21,7 @@ mod mutate;
 mod idioms;
 mod c15;
 mod c19;
+mod c14;
 
 use engine::{Env, Tier};
 use std::path::PathBuf;
@@ -120,6 +121,7 @@ fn main() {
         "C12" => c12::run(&env),
         "C15" => c15::run(&env),
         "C19" => c19::run(&env),
+        "C14" => c14::run(&env, &rest),
         _ => usage(),
     };
     std::process::exit(code);
